@@ -399,6 +399,46 @@ fn run_plan(ctx: &Ctx, prop: Prop, plan: &Plan, deadline: f64, agg: &mut Agg) {
     }
 }
 
+/// The crash/restart plan once more, with the daemon (trace recording: `ShmWriter::new`, its probe of the
+/// existing segment, the publications) and the clients (every attach and call of the exploration) running
+/// as an unprivileged user with no capabilities and no memory-lock allowance (common/privdrop.rs). Nothing
+/// in the property depends on privileges, so the oracles are unchanged.
+fn least_privilege_phase(ctx: &Ctx, deadline: f64, agg: &mut Agg) -> Value {
+    use crate::common::privdrop;
+    let label = "SC, crash at every point of the first incarnation + restart, all interleavings; daemon and clients unprivileged";
+    let r = privdrop::run(|| {
+        let base = ctx.scratch();
+        let dir0 = thread_dir(&base);
+        let multi = multi_incarnation(Tier::Quick, 2, &dir0);
+        let plan = Plan { works: record_all(multi, &base), mode: Mode::Sc, dev_bound: u32::MAX, stop_points: false, full_spin: false, label: "least privilege" };
+        let mut a = Agg::new();
+        run_plan(ctx, Prop::C04, &plan, deadline, &mut a);
+        let ws: Vec<&Work> = plan.works.iter().collect();
+        let n = writer_oracles_c04(&ws, &mut a);
+        json!({"agg": a.to_json(), "writer_traces": plan.works.len(), "incarnations": n})
+    });
+    match r {
+        Err(e) => machinery_failure(&format!("least-privilege phase: {e}")),
+        Ok(v) => {
+            let mut a = Agg::from_json(&v["agg"]);
+            for (_, (_, viol)) in a.best.iter_mut() {
+                viol.text = format!("[daemon and clients unprivileged: uid 65534, no capabilities, RLIMIT_MEMLOCK 0] {}", viol.text);
+                viol.replay["environment"] = json!("least-privilege");
+            }
+            let d = json!({"plan": label, "environment": privdrop::describe(), "writer_traces": v["writer_traces"], "incarnations_checked": v["incarnations"],
+                "attaches_that_succeeded": a.attach_ok, "states": a.stats.states, "transitions": a.stats.transitions, "executions": a.stats.executions, "capped": a.stats.capped});
+            if a.stats.transitions == 0 || a.attach_ok == 0 {
+                // nothing could be opened at all in that environment: every attach was refused, which the attach oracle reports
+                if a.best.is_empty() {
+                    machinery_failure("least-privilege phase explored nothing and reported nothing");
+                }
+            }
+            agg.merge(a);
+            d
+        }
+    }
+}
+
 /// Confirm a violation by re-executing it twice from its replay document.
 fn confirm(ctx: &Ctx, v: &Violation) -> Result<(), String> {
     let doc = &v.replay;
@@ -414,6 +454,18 @@ fn confirm(ctx: &Ctx, v: &Violation) -> Result<(), String> {
 }
 
 fn replay_doc_run(ctx: &Ctx, doc: &Value) -> Result<String, String> {
+    if doc["environment"] == "least-privilege" {
+        let mut d = doc.clone();
+        d.as_object_mut().unwrap().remove("environment");
+        let v = crate::common::privdrop::run(|| match replay_doc_run(ctx, &d) {
+            Ok(s) => json!({"ok": s}),
+            Err(e) => json!({"err": e}),
+        })?;
+        return match v["ok"].as_str() {
+            Some(s) => Ok(s.to_string()),
+            None => Err(v["err"].as_str().unwrap_or("?").to_string()),
+        };
+    }
     let sc = Scenario::from_json(&doc["scenario"]);
     let dir = thread_dir(&ctx.scratch());
     let trace = record_trace(&sc, &dir)?;
@@ -441,6 +493,20 @@ fn replay_cmd(ctx: &Ctx, path: &std::path::Path) -> i32 {
     install();
     let doc: Value = serde_json::from_str(&std::fs::read_to_string(path).expect("replay file")).expect("json");
     let case = &doc["case"];
+    if case["engine"] == "seqmc-writer" && case["environment"] == "least-privilege" {
+        let mut d = doc.clone();
+        d["case"].as_object_mut().unwrap().remove("environment");
+        let tmp = ctx.scratch().join("replay-unpriv.json");
+        std::fs::write(&tmp, serde_json::to_string(&d).unwrap()).expect("scratch");
+        println!("(replaying as uid 65534, no capabilities, RLIMIT_MEMLOCK 0)");
+        return match crate::common::privdrop::run(|| json!(replay_cmd(ctx, &tmp))) {
+            Ok(v) => v.as_i64().unwrap_or(2) as i32,
+            Err(e) => {
+                println!("replay failed: {e}");
+                2
+            }
+        };
+    }
     if case["engine"] == "seqmc-writer" {
         let sc = Scenario::from_json(&case["scenario"]);
         let dir = thread_dir(&ctx.scratch());
@@ -576,7 +642,7 @@ fn run_reader_prop(ctx: &Ctx, prop: Prop, lit: (usize, u64)) -> i32 {
     let tier = ctx.tier;
     let base = ctx.scratch();
     let dir0 = thread_dir(&base);
-    let budget = ctx.opt_usize("budget_s").map(|b| b as f64).unwrap_or(tier.pick(45.0, 2400.0));
+    let budget = ctx.opt_usize("budget_s").map(|b| b as f64).unwrap_or(tier.pick(600.0, 2400.0));
     let deadline = raw_now_s() + budget;
     let mut plans: Vec<Plan> = vec![];
     let unb = u32::MAX;
@@ -633,6 +699,10 @@ fn run_reader_prop(ctx: &Ctx, prop: Prop, lit: (usize, u64)) -> i32 {
         let multi: Vec<&Work> = plans.iter().flat_map(|p| p.works.iter()).collect();
         let wv = writer_oracles_c04(&multi, &mut agg);
         extra.push(("writer_side_incarnations_checked", json!(wv)));
+    }
+    if prop == Prop::C04 {
+        let d = least_privilege_phase(ctx, deadline, &mut agg);
+        extra.push(("least_privilege_environment", d));
     }
     if prop == Prop::C18 {
         let d = directed_continuous_writer(ctx, &mut agg);
